@@ -102,9 +102,11 @@ fn check_message(c: u8, n: u8, v: u16, mon: &mut Cc14Mon, rng: &mut Rng, hist: &
     // "for both factory implementations as encoding target": the Structured encoding fed to a copy
     // of the never-fresh scanner must be decoded exactly like the Raw one
     {
-        let st: [StructuredShortMessage; 2] = m.to_short_messages();
         let mut sc = mon.real;
-        let r = api("ControlChange14BitMessageScanner::feed", || (sc.feed(&st[0]), sc.feed(&st[1])));
+        let r = api("ControlChange14BitMessageScanner::feed", || {
+            let st: [StructuredShortMessage; 2] = m.to_short_messages();
+            (sc.feed(&st[0]), sc.feed(&st[1]))
+        });
         // (the prior state may hold any MSB; the pair itself must be decoded)
         if !matches!(r, Some((None, Some(x))) if x == m) {
             crate::viol!(
